@@ -50,6 +50,16 @@ pub fn directed(name: &str) -> Option<Strategy> {
             // worker 0, already past the abort check of its loop, re-executes tx 1
             d(Sel::All, "never", None),
         ])),
+        // tx 1 runs before tx 0 has written the flag and writes slot 5; tx 2 reads that entry; then
+        // tx 0 publishes, tx 1 is invalidated and re-executed WITHOUT writing slot 5 (its entry is
+        // removed); only then is tx 2 validated: its read source is gone and nobody else writes it.
+        "read-source-vanishes-before-validation" => Some(Strategy::Directed(vec![
+            d(Sel::Role(0, 0), "exec_begin", Some(0)),
+            d(Sel::Role(0, 1), "exec_end", Some(2)),
+            d(Sel::AllExcept(0, 1), "mv_remove", Some(1)),
+            d(Sel::AllExcept(0, 1), "hist_record", Some(1)),
+            d(Sel::All, "never", None),
+        ])),
         _ => None,
     }
 }
@@ -584,7 +594,7 @@ pub fn cmd_witness(args: &Args) -> J {
     let mut divergences = Vec::new();
     let mut samples = Vec::new();
     let mut ran = 0usize;
-    let names = ["F2-stale-attempt-fatal", "F5-reexecution-after-abort"];
+    let names = ["F2-stale-attempt-fatal", "F5-reexecution-after-abort", "vanished-read-source"];
     for name in names {
         if !only.is_empty() && only != name {
             continue;
@@ -592,6 +602,7 @@ pub fn cmd_witness(args: &Args) -> J {
         let mut rng = case_rng(7, name, 0);
         let (block, strategy, fault_free): (Block, &str, Option<Block>) = match name {
             "F2-stale-attempt-fatal" => (crate::blocks::gen_stale_fatal(&mut rng), "stale-attempt-ends-at-commit-head", None),
+            "vanished-read-source" => (crate::blocks::gen_vanished_source(&mut rng), "read-source-vanishes-before-validation", None),
             _ => {
                 let mut b = crate::blocks::gen_coded_sender(&mut rng);
                 let clean = b.clone();
